@@ -51,16 +51,53 @@ TYPE_NAME = "verif_fwd"
 register_type(TYPE_NAME, FwdSchema)
 
 
-def fwd(inner):
-    """Declare through the public facade: schema.verif_fwd(inner)."""
-    return getattr(schema, TYPE_NAME)(inner)
+class _FwdHooks:
+    """the same hooks, supplied by a mixin (a second base class) instead of the class body"""
+
+    def __call__(self, inner):
+        if not isinstance(inner, Schema):
+            raise DeclarationError(f"verif_fwd: expected a schema, got {inner!r}")
+        if self.props.inner is not Nil:
+            raise DeclarationError("verif_fwd is already declared")
+        return self.__class__(self.props.update(inner=inner))
+
+    def __validate__(self, visitor, *, value=Nil, path=Nil, **kwargs):
+        return self.props.inner.__accept__(visitor, value=value, path=path, **kwargs)
+
+    def __generate__(self, visitor, **kwargs):
+        return self.props.inner.__accept__(visitor, **kwargs)
+
+    def __represent__(self, visitor, *, indent=0, **kwargs):
+        return self.props.inner.__accept__(visitor, indent=indent, **kwargs)
+
+    def __substitute__(self, visitor, *, value=Nil, **kwargs):
+        substituted = self.props.inner.__accept__(visitor, value=value, **kwargs)
+        return self.__class__(self.props.update(inner=substituted))
+
+
+class FwdMixinSchema(CustomSchema[FwdProps], _FwdHooks, absn.Fwd):
+    """hooks inherited from a mixin listed after CustomSchema"""
+
+
+class FwdChildSchema(FwdSchema):
+    """hooks inherited from a user-defined custom parent class"""
+
+
+register_type(TYPE_NAME + "_mixin", FwdMixinSchema)
+register_type(TYPE_NAME + "_child", FwdChildSchema)
+_FACADES = [TYPE_NAME, TYPE_NAME + "_mixin", TYPE_NAME + "_child"]
+
+
+def fwd(inner, which=0):
+    """Declare through the public facade: schema.verif_fwd(inner) (which: 0 class body, 1 mixin, 2 child)."""
+    return getattr(schema, _FACADES[which % len(_FACADES)])(inner)
 
 
 # ------------------------------------------------------------------ built-tree surgery
 def _map_children(s, f):
     """Rebuild s with f(child, step) applied to every direct sub-schema, through
     s.__class__(s.props.update(...)) - never by re-declaring."""
-    if isinstance(s, FwdSchema):
+    if isinstance(s, absn.Fwd):
         return s.__class__(s.props.update(inner=f(s.props.inner, ("inner",))))
     t = type(s)
     if t is ListSchema:
@@ -111,8 +148,8 @@ def kind_of(pos):
 def wrap_at(s, chosen, prefix=()):
     """chosen: {position: number of wrappers to put around the schema at that position}."""
     s2 = _map_children(s, lambda child, step: wrap_at(child, chosen, prefix + (step,)))
-    for _ in range(chosen.get(prefix, 0)):
-        s2 = fwd(s2)
+    for i in range(chosen.get(prefix, 0)):
+        s2 = fwd(s2, which=len(prefix) + sum(len(str(x)) for x in prefix) + i)
     return s2
 
 
@@ -131,7 +168,7 @@ def wrap_random(rng, s, rate=0.35):
 
 def erase_built(s):
     """Remove every FwdSchema wrapper of a built tree (inverse of wrap_at)."""
-    if isinstance(s, FwdSchema):
+    if isinstance(s, absn.Fwd):
         return erase_built(s.props.inner)
     return _map_children(s, lambda child, step: erase_built(child))
 
@@ -143,7 +180,7 @@ def count_wrappers(s):
         n[0] += count_wrappers(child)
         return child
     _map_children(s, visit)
-    return n[0] + (1 if isinstance(s, FwdSchema) else 0)
+    return n[0] + (1 if isinstance(s, absn.Fwd) else 0)
 
 
 # ------------------------------------------------------------------ deterministic environment
